@@ -125,6 +125,8 @@ def run_shard(shard, rec, tier, seed):
                 rec.cls("parsed_with_selection_of_all_tracks")
             out, ob, d = mcheck.judge(rec, ("C02",), case, want=sel, extra=extra)
             keep.add(case)
+            if d is not None and not mcheck.select(d, ("C02",), extra) and sel is None and i % 3 == 0 and not mcheck.constructor_route(rec, ("C02",), case, out):
+                continue
             if d is not None and not mcheck.select(d, ("C02",), extra):
                 note_classes(rec, case["truth"])
                 for name, body in case["sections"]:
